@@ -57,17 +57,22 @@ __all__ = [
 ]
 
 
-def FixedSizeString(size_: int, len_type_: Union[DataType, Type[DataType]] = UDINT):
+def FixedSizeString(
+    size_: int, len_type_: Union[DataType, Type[DataType]] = UDINT, max_len_: int = None
+):
     """
-    Creates a custom string tag type
+    Creates a custom string tag type of ``size_`` data bytes, longer values are truncated
+    to ``max_len_`` characters (default: ``size_``) when encoding.
     """
 
     class FixedSizeString(StringDataType):
         size = size_
         len_type = len_type_
+        max_len = size_ if max_len_ is None else max_len_
 
         @classmethod
         def _encode(cls, value: str, *args, **kwargs) -> bytes:
+            value = value[: cls.max_len]
             return (
                 cls.len_type.encode(len(value))
                 + value.encode(cls.encoding)
